@@ -405,3 +405,46 @@ PROPS["C10"] = {
     ],
     "min_nontrivial": {"quick": 5000, "thorough": 100000},
 }
+
+PROPS["C11"] = {
+    "level": "exploration",
+    "design_ref": "DESIGN.md §4.11",
+    "technique": "rapid-generated (prior state, predicate, limit, batch size, poll pattern) with a model-map oracle and a call-log invariant; stateful rapid state machine (put/remove/delete/select histories) against a model map",
+    "level_text": "Randomised exploration with a model oracle. Single-statement leg: prior states x predicates (key atoms that become point reads / prefixes / "
+                  "ranges, AND/OR pairs of them, and the full core grammar) x optional limit n / limit s,n x batch size {1,2,3,32}, executed by a random word "
+                  "over {Next, Batch} of length 1-5 on the same plan. Expected = keys of the reference-filtered prior state in key order sliced by the limit; "
+                  "afterwards the store must equal prior minus expected with every surviving pair byte-identical, the call log must contain no Put/BatchPut, "
+                  "and (scan-and-delete strategy) every key passed to Delete/BatchDelete must be in the expected set. History leg: rapid state machine with "
+                  "actions put / remove / delete [limit] / select / point-select, each step in a random mode and batch size, invariant after every step: "
+                  "full-scan equality of store and model map and SELECT rows equal the reference.",
+    "level_note": "Trusted: reference evaluator, model map, snapshot cursors of the reference store (the property is stated for storages with snapshot cursors). Empty keys are outside the domain.",
+    "rule": "rapid single statements + rapid state-machine histories (average 25 steps). Non-trivial (single) = 0 < |expected| < |prior|; "
+            "non-trivial (history) = at least 2 writes, 1 select and 3 executed steps; distinct = distinct (statement, store, batch, polls) / distinct histories.",
+    "assumptions": COMMON_ASSUMPTIONS,
+    "legs": [
+        {"test": "TestC11", "kind": "rapid", "quick": {"checks": 6000, "shards": 3, "shrink": "15s"}, "thorough": {"checks": 150000, "shards": 10}},
+        {"test": "TestC11History", "kind": "rapid", "quick": {"checks": 400, "shards": 3, "steps": 25, "shrink": "15s"}, "thorough": {"checks": 15000, "shards": 6, "steps": 30}},
+    ],
+    "min_nontrivial": {"quick": 3000, "thorough": 50000},
+}
+
+PROPS["C12"] = {
+    "level": "exploration",
+    "design_ref": "DESIGN.md §4.12",
+    "technique": "rapid-generated PUT/REMOVE statements (duplicate keys, key-dependent values, failing expressions at any position) x poll patterns; model-map oracle + exactly-one-write-call invariant on the call log; shared state-machine histories",
+    "level_text": "Randomised exploration with a model oracle: 1-6 pairs whose keys/values are literals, integers, concatenations and function calls (values may use "
+                  "`key`, keys repeat), one time in four with an expression that fails at evaluation (division by a computed zero, distance of vectors of "
+                  "different length) placed first, in the middle or last; REMOVE symmetrical. The finished plan is polled with a random word over {Next, Batch}. "
+                  "Store afterwards = prior overwritten in order by the reference-evaluated pairs; the log shows exactly one Put (n=1) or one BatchPut with the n "
+                  "pairs in order - or no storage call at all and an error when any expression fails; building the plan touches no storage; later polls return "
+                  "end-of-stream and add nothing; a following select * where key = k sees the model's value. Histories as in C11.",
+    "level_note": "Numbers are integers (float rendering is unspecified). Empty keys are outside the domain.",
+    "rule": "rapid single statements + histories. Non-trivial = a duplicate key, a value that depends on key, a REMOVE of an existing key, or a failing "
+            "expression after a succeeding one; distinct = distinct (statement, prior state, polls).",
+    "assumptions": COMMON_ASSUMPTIONS,
+    "legs": [
+        {"test": "TestC12", "kind": "rapid", "quick": {"checks": 6000, "shards": 3}, "thorough": {"checks": 150000, "shards": 10}},
+        {"test": "TestC12History", "kind": "rapid", "quick": {"checks": 400, "shards": 2, "steps": 25, "shrink": "15s"}, "thorough": {"checks": 15000, "shards": 6, "steps": 30}},
+    ],
+    "min_nontrivial": {"quick": 3000, "thorough": 50000},
+}
